@@ -2,7 +2,7 @@
    model (Model/SigParse.v). *)
 From Coq Require Import String ZArith NArith List Bool Lia.
 From PV Require Import Model.Prelude Model.Bits Model.Sig Model.Text Model.SigParse Gen.GeneratedSig.
-From PV Require Import Proofs.BitsP Proofs.DbParseP.
+From PV Require Import Proofs.BitsP Proofs.DbParseP Model.DbParse Model.Dump.
 Import ListNotations.
 Local Open Scope Z_scope.
 
@@ -359,6 +359,33 @@ Qed.
 Theorem gen_MTUSignature_parse_eq : forall t, gen_MTUSignature_parse t = parse_mtu_sig t.
 Proof. intros t. apply gen_parse_number_in_range_eq. Qed.
 
+(* ---- the printers: TCPOptions.dump and dump_quirks as the source has them (tables by evaluation) are the model's printers ---- *)
+Theorem gen_TCPOptions_dump_eq : forall layout eol, gen_TCPOptions_dump layout eol = dump_layout layout eol.
+Proof.
+  intros layout eol. unfold gen_TCPOptions_dump, dump_layout. cbv zeta. f_equal.
+  apply map_ext. intro k. unfold dump_option.
+  destruct (k =? 0); cbn [negb]; [reflexivity|].
+  unfold gen_OPTION_STRINGS_out. cbn [gen_zdict_get].
+  destruct (k =? 1); [reflexivity|]. destruct (k =? 2); [reflexivity|]. destruct (k =? 3); [reflexivity|].
+  destruct (k =? 4); [reflexivity|]. destruct (k =? 5); [reflexivity|]. destruct (k =? 8); reflexivity.
+Qed.
+
+Lemma dump_quirks_table q (l : list (text * N)) :
+  map snd (filter (fun qs => gen_in (fst qs) q) (map (fun nk => (N.shiftl 1 (snd nk), fst nk)) l))
+  = map fst (filter (fun nk => hasq (snd nk) q) l).
+Proof.
+  induction l as [|[n k] r IH]; [reflexivity|].
+  cbn [map filter fst snd]. rewrite gen_in_shiftl. unfold hasq at 1.
+  destruct (N.testbit q k); cbn [map fst snd]; rewrite IH; reflexivity.
+Qed.
+
+Theorem gen_dump_quirks_eq : forall q, gen_dump_quirks q = dump_quirks q.
+Proof.
+  intro q. unfold gen_dump_quirks, dump_quirks. f_equal.
+  change gen_QUIRK_STRINGS_out with (map (fun nk : text * N => (N.shiftl 1 (snd nk), fst nk)) quirk_names).
+  apply dump_quirks_table.
+Qed.
+
 Print Assumptions gen_is_wildcard_eq.
 Print Assumptions gen_parse_number_in_range_eq.
 Print Assumptions gen_parse_from_options_eq.
@@ -369,3 +396,5 @@ Print Assumptions gen_parse_options_eq.
 Print Assumptions gen_parse_quirks_eq.
 Print Assumptions gen_TCPSignature_parse_eq.
 Print Assumptions gen_MTUSignature_parse_eq.
+Print Assumptions gen_TCPOptions_dump_eq.
+Print Assumptions gen_dump_quirks_eq.
